@@ -356,7 +356,7 @@ class TrM:
             a, ta = self.expr(e.left); b, tb = self.expr(e.right)
             if ta != "Z" or tb != "Z":
                 raise Refuse("arithmetic on non-integers")
-            for k, fmt in {ast.Add: "(%s + %s)", ast.Sub: "(%s - %s)", ast.Mult: "(%s * %s)"}.items():
+            for k, fmt in {ast.Add: "(%s + %s)", ast.Sub: "(%s - %s)", ast.Mult: "(%s * %s)", ast.Mod: "(Z.modulo %s %s)"}.items():   # Python's % and Z.modulo both take the sign of the divisor
                 if isinstance(e.op, k):
                     return fmt % (a, b), "Z"
             raise Refuse("binary operator %s" % type(e.op).__name__)
@@ -808,7 +808,11 @@ class TrM:
                 if target.id in self.params and target.id in self.drop_params:
                     return nxt()          # a parameter that is never read by the translation (normalised for the erased uses)
                 if target.id in self.params:
-                    raise Refuse("assignment to parameter %s" % target.id)
+                    # a parameter re-bound to a new value: shadowed from here on
+                    t, ty = self.expr(s.value)
+                    if ty != self.ptypes.get(target.id, "Z"):
+                        raise Refuse("parameter %s re-assigned at another type" % target.id)
+                    return "let %s := %s in\n  %s" % (target.id, t, nxt())
                 if target.id in self.m.get("erase_locals", []) or target.id in self.m.get("local_objects", []):
                     return nxt()
                 snapshot = list(self.binders)
@@ -873,6 +877,14 @@ class TrM:
             if len(idx) != 1:
                 raise Refuse("only_if: `if %s` not found exactly once at the top level of %s" % (only, self.f.name))
             stmts = list(stmts[idx[0]].body)
+        cut_s = self.m.get("until_stmt")
+        if cut_s:
+            # translate the statements before the first one whose source text starts with the given prefix; the result is the
+            # configured expression evaluated at that point (the rest of the method is modelled elsewhere)
+            idx = [i for i, st in enumerate(stmts) if ast.unparse(st).startswith(cut_s)]
+            if len(idx) != 1:
+                raise Refuse("until_stmt: `%s` not found exactly once at the top level of %s" % (cut_s, self.f.name))
+            stmts = stmts[:idx[0]] + [ast.copy_location(ast.Return(value=ast.parse(self.m["result_expr"], mode="eval").body), stmts[idx[0]])]
         cut = self.m.get("until_if")
         if cut:
             idx = [i for i, st in enumerate(stmts) if isinstance(st, ast.If) and ast.unparse(st.test) == cut]
